@@ -155,9 +155,12 @@ pub trait PostConversionLinter {
     fn visit_assignment(
         &mut self,
         assignment: &Assignment,
-        _name_pos: Position,
+        name_pos: Position,
     ) -> Result<(), LintErrorPos> {
-        let (_, v) = assignment.into();
+        let (l, v) = assignment.into();
+        // the left side can contain expressions too (array indices)
+        let l_pos = l.clone().at_pos(name_pos);
+        self.visit_expression(&l_pos)?;
         self.visit_expression(v)
     }
 
